@@ -55,7 +55,9 @@ class Hardware:
         self.bindings = bindings
         self.program = program
 
-        self.components: Dict[str, Component] = {}
+        # Components are built per configuration; two configurations may
+        # contain components of the same name
+        self.components: Dict[str, Dict[str, Component]] = {}
 
         # Get the configuration for each Einsum
         self.configs = {}
@@ -76,13 +78,25 @@ class Hardware:
                     config +
                     " must have a single root level")
 
-            self.tree[config] = self.__build_level(subtree[0])
+            self.components[config] = {}
+            self.tree[config] = self.__build_level(subtree[0], config)
 
     def get_component(self, name: str) -> Component:
         """
         Get component by its name
         """
-        return self.components[name]
+        configs = [config for config in self.components
+                   if name in self.components[config]]
+        if not configs:
+            raise KeyError(name)
+
+        # If more than one configuration has a component with this name, use
+        # the configuration of the current Einsum
+        if len(configs) > 1:
+            einsum = self.program.get_equation().get_output().root_name()
+            return self.components[self.configs[einsum]][name]
+
+        return self.components[configs[0]][name]
 
     def get_components(self, einsum: str, class_: Type[T]) -> List[T]:
         """
@@ -90,7 +104,7 @@ class Hardware:
         """
         components: List[T] = []
         for name in self.bindings.get_bindings()[einsum]:
-            component = self.components[name]
+            component = self.components[self.configs[einsum]][name]
             if isinstance(component, class_):
                 components.append(component)
         return components
@@ -179,7 +193,11 @@ class Hardware:
         einsum = self.program.get_equation().get_output().root_name()
         return self.tree[self.configs[einsum]]
 
-    def __build_component(self, local: dict, num_instances: int) -> Component:
+    def __build_component(
+            self,
+            local: dict,
+            num_instances: int,
+            config: str) -> Component:
         """
         Build a component
         """
@@ -226,18 +244,18 @@ class Hardware:
         binding = deepcopy(self.bindings.get_component(name))
 
         component = class_(name, num_instances, local["attributes"], binding)
-        self.components[component.get_name()] = component
+        self.components[config][component.get_name()] = component
 
         return component
 
-    def __build_level(self, tree: dict) -> Level:
+    def __build_level(self, tree: dict, config: str) -> Level:
         """
         Build the levels of the architecture tree
         """
         attrs = tree["attributes"]
-        local = [self.__build_component(comp, tree["num"])
+        local = [self.__build_component(comp, tree["num"], config)
                  for comp in tree["local"]]
-        subtrees = [self.__build_level(subtree)
+        subtrees = [self.__build_level(subtree, config)
                     for subtree in tree["subtree"]]
 
         return Level(tree["name"], tree["num"], attrs, local, subtrees)
